@@ -807,7 +807,7 @@ func (fc *FnCtx) havocGhosts(st *State, nodes ...ast.Node) {
 	fc.e.fresher.n++
 	st.ghost["$epoch"] = Int(int64(fc.e.fresher.n))
 	for k := range st.ghost {
-		if strings.HasPrefix(k, "out:") || strings.HasPrefix(k, "in:") || strings.HasPrefix(k, "tr:") {
+		if strings.HasPrefix(k, "out:") || strings.HasPrefix(k, "in:") || strings.HasPrefix(k, "tr:") || strings.HasPrefix(k, "refused:") {
 			delete(st.ghost, k) // re-materialised lazily in the new epoch
 		}
 	}
@@ -1007,6 +1007,7 @@ func (fc *FnCtx) execRange(st *State, x *ast.RangeStmt) []Outcome {
 	head.Assume(And(Le(Int(0), idx), Le(idx, length)))
 	scope := map[string]Value{keyName: idx}
 	fc.assumeInvariants(head, ls, scope)
+	fc.applyUsesScope(head, fmt.Sprintf("loop%d.head", n), scope)
 	var outs []Outcome
 	body := head.Clone()
 	body.Assume(Lt(idx, length))
@@ -1038,6 +1039,7 @@ func (fc *FnCtx) execRange(st *State, x *ast.RangeStmt) []Outcome {
 			body.Declare(valObj, r)
 		}
 	}
+	fc.applyUsesScope(body, fmt.Sprintf("loop%d.body", n), scope)
 	for _, o := range fc.execBlock(body, x.Body.List) {
 		switch {
 		case o.kind == oFall || (o.kind == oContinue && (o.label == "" || o.label == lbl)):
@@ -1053,6 +1055,7 @@ func (fc *FnCtx) execRange(st *State, x *ast.RangeStmt) []Outcome {
 	exit := head.Clone()
 	exit.Assume(Eq(idx, length))
 	// expose final index under the key name for `use loopN.exit` clauses
+	fc.applyUsesScope(exit, fmt.Sprintf("loop%d.exit", n), scope)
 	outs = append(outs, Outcome{kind: oFall, st: exit})
 	return outs
 }
@@ -1185,12 +1188,14 @@ func (fc *FnCtx) applyUsesScope(st *State, where string, extra map[string]Value)
 	}
 	for _, l := range fc.c.Lets {
 		if l.Where == where {
+			fc.firedWhere[l.Where] = true
 			sc := fc.specCtx(st, extra)
 			st.ghost["let:"+l.Text] = sc.eval(l.Expr)
 		}
 	}
 	for _, a := range fc.c.Assumes {
 		if a.Where == where && fc.e.applies(&Clause{Props: a.Props}) {
+			fc.firedWhere[a.Where] = true
 			sc := fc.specCtx(st, extra)
 			sc.pol = -1
 			st.Assume(sc.evalBool(a.Expr))
@@ -1199,6 +1204,7 @@ func (fc *FnCtx) applyUsesScope(st *State, where string, extra map[string]Value)
 	}
 	for _, u := range fc.c.Uses {
 		if u.Where == where && fc.e.applies(&Clause{Props: u.Props}) {
+			fc.firedWhere[u.Where] = true
 			fc.useLemma(st, u, extra)
 		}
 	}
